@@ -12,7 +12,7 @@ ASSUMPTIONS = ["objective agreement bound: (gap_A+gap_B) + (pres_A+pres_B)(||y||
                "GLPK/DSDP are held to 1e-5 relative objective agreement (their documented default tolerances)"]
 TRANSFORMS = ["storage", "kktsolver", "wrapper", "operator", "start", "l-as-q1", "l-as-s1", "perm-rows", "perm-vars",
               "scale-objective", "backend", "python-kernels"]
-REQUIRED_COUNTERS = ["pair." + t for t in TRANSFORMS] + ["names.enumerated", "names.rejected-before-factor", "names.accepted"]
+REQUIRED_COUNTERS = ["operator.x-operations-given.A-None", "pair." + t for t in TRANSFORMS] + ["names.enumerated", "names.rejected-before-factor", "names.accepted"]
 
 
 def plan(tier):
@@ -33,7 +33,7 @@ def run(ctx):
 
     OPTS = {"show_progress": False}
 
-    def solve(entry, pr, rng, sparse=False, kkt=None, start="none", opts=None, backend=None, operators=False, mixed=None, junk=False):
+    def solve(entry, pr, rng, sparse=False, kkt=None, start="none", opts=None, backend=None, operators=False, mixed=None, junk=False, xops=False):
         isqp = pr.P is not None
         sG, sA, sP = mixed if mixed is not None else (sparse, sparse, sparse)
         if junk:
@@ -61,7 +61,20 @@ def run(ctx):
         if opts: o.update(opts)
         if backend == "glpk":
             o.update({"glpk": {"msg_lev": "GLP_MSG_OFF"}})
-        sol, inner, exc = sr.call_entry(entry, pr, args, kktsolver=kkt, ps=ps, ds=ds, options=o, solver=backend)
+        if operators and xops and entry == "conelp":
+            # the documented vector operations passed explicitly (here: the ones conelp uses by default), and no equality
+            # constraints given as A = None, b = None when the problem has none
+            from cvxopt import blas as blas_
+            kw_ = dict(xnewcopy=matrix, xdot=blas_.dot, xaxpy=blas_.axpy, xscal=blas_.scal)
+            A_, b_ = (None, None) if pr.p == 0 else (args["A"], args["b"])
+            if pr.p == 0: ctx.count("operator.x-operations-given.A-None")
+            try:
+                sol = solvers.conelp(args["c"], args["G"], args["h"], args["dims"], A_, b_, primalstart=ps, dualstart=ds, kktsolver=kkt, options=o, **kw_)
+                exc = None
+            except Exception as e_:
+                sol, exc = None, e_
+        else:
+            sol, inner, exc = sr.call_entry(entry, pr, args, kktsolver=kkt, ps=ps, ds=ds, options=o, solver=backend)
         if sol is not None:
             sol = sr.normalise(entry, sol, pr.dims)
         return sol, exc
@@ -388,7 +401,7 @@ def run(ctx):
                 kk = lambda W: fac(W, a0["P"])
             else:
                 kk = lambda W: fac(W)
-            solB, excB = solve(entry, pr, rng, kkt=kk, operators=True)
+            solB, excB = solve(entry, pr, rng, kkt=kk, operators=True, xops=(not isqp) and rng.random() < 0.5)
         elif t == "start":
             if kind != "feasible":
                 ctx.count("skipped.start-on-infeasible"); return
